@@ -75,16 +75,17 @@ def fileOp (w : World) (h : Nat) (op : WOp) : Except WErr (Val × World) :=
     let setH (hd' : Handle) (w : World) : World := { w with handles := w.handles.set! h hd' }
     let data := (getFile w hd.path).getD []
     match op with
-    | .fclose _ => .ok (.nil, setH { hd with closed := true } w)
-    | .fread _ n =>
+    | .fclose _ _ => .ok (.nil, setH { hd with closed := true } w)
+    | .fread _ _ n =>
       if hd.closed then .error .value
       else if n < -1 then .error .value
+      else if n ≥ 2 ^ 63 then .error .value                 -- OverflowError: does not fit an index
       else if !canRead hd.mode then .error .value
       else
         let avail := data.drop hd.pos
         let got := if n = -1 then avail else avail.take n.toNat
         .ok (.bytes got, setH { hd with pos := hd.pos + got.length } w)
-    | .fwrite _ b =>
+    | .fwrite _ _ b =>
       if hd.closed then .error .value
       else if !canWrite hd.mode then .error .value
       else
@@ -92,20 +93,22 @@ def fileOp (w : World) (h : Nat) (op : WOp) : Except WErr (Val × World) :=
         let padded := if at_ > data.length then data ++ List.replicate (at_ - data.length) 0 else data
         let newData := padded.take at_ ++ b ++ padded.drop (at_ + b.length)
         .ok (.int b.length, setH { hd with pos := at_ + b.length } (setFile w hd.path newData))
-    | .ftell _ =>
+    | .ftell _ _ =>
       if hd.closed then .error .value else .ok (.int hd.pos, w)
-    | .fseek _ off whence =>
+    | .fseek _ _ off whence =>
       if hd.closed then .error .value
       else
         let target : Int := if whence = 1 then (hd.pos : Int) + off else off
-        if target < 0 then .error (.os 22)
+        if off ≥ 2 ^ 63 ∨ off < -(2 ^ 63) then .error .value      -- OverflowError
+        else if target < 0 then .error (.os 22)
         else .ok (.int target, setH { hd with pos := target.toNat } w)
-    | .ftrunc _ n =>
+    | .ftrunc _ _ n =>
       if hd.closed then .error .value
       else if !canWrite hd.mode then .error .value
       else
         let size : Int := match n with | some k => k | none => hd.pos
-        if size < 0 then .error (.os 22)
+        if size ≥ 2 ^ 63 ∨ size < -(2 ^ 63) then .error .value     -- OverflowError
+        else if size < 0 then .error (.os 22)
         else
           let sz := size.toNat
           let newData := if sz ≤ data.length then data.take sz else data ++ List.replicate (sz - data.length) 0
@@ -117,7 +120,9 @@ open World in
 def openFile (w : World) (path : String) (mode : Nat) : Except WErr (Nat × World) :=
   let p := normPath path
   let parent := "/".intercalate (pathParts path).dropLast
-  if p == "" || isDir w p then .error (.os 21)                    -- EISDIR
+  if path.contains (Char.ofNat 0) then .error .value               -- embedded NUL: ValueError
+  else if p == "" && !(path.startsWith "/" || path.startsWith ".") then .error (.os 2)   -- open("") : ENOENT
+  else if p == "" || isDir w p then .error (.os 21)                    -- EISDIR
   else if !(isDir w parent) then
     (if (getFile w parent).isSome then .error (.os 20) else .error (.os 2))   -- ENOTDIR / ENOENT
   else
